@@ -181,7 +181,12 @@ func c08e(c *Ctx) {
 				return
 			}
 			sl, ok := ia.X.Type().Underlying().(*types.Slice)
-			if !ok || !repoElem(c.W, sl.Elem(), 0) {
+			if !ok {
+				return
+			}
+			// (in the emitter: lists of any kind — it renders what it is given, a command's
+			// arguments included; the parser patches hoisted labels into argument lists: C06)
+			if !repoElem(c.W, sl.Elem(), 0) && c.W.PkgShort(fn) != "emitter" {
 				return
 			}
 			if _, fresh := ia.X.(*ssa.Slice); fresh && localSlice(ia.X, map[ssa.Value]bool{}) {
